@@ -329,6 +329,12 @@ func (k Keeper) StartRequestContext(
 		return types.ErrRequestContextNotPaused
 	}
 
+	// a context that has issued all its batches must not be queued for another one
+	if requestContext.Repeated && requestContext.RepeatedTotal >= 0 &&
+		int64(requestContext.BatchCounter) >= requestContext.RepeatedTotal {
+		return errorsmod.Wrap(types.ErrRequestContextCompleted, "repeated total reached")
+	}
+
 	requestContext.State = types.RUNNING
 	k.SetRequestContext(ctx, requestContextID, requestContext)
 
